@@ -742,7 +742,7 @@ Proof.
       destruct l1 as [|x l1]; cbn [app] in H; inversion H; subst.
       * exists st. split; [left; reflexivity|].
         assert (t2 = t').
-        { apply (expected_log_first C t' r k2 t2 l2). rewrite E. symmetry. assumption. }
+        { apply (expected_log_first C t' r k2 t2 l2). rewrite E. reflexivity. }
         subst. exact F.
       * destruct (IH t' l1 k1 t1 k2 t2 l2) as [st1 [Hin Hf]]; [rewrite E; assumption|].
         exists st1. split; [right; exact Hin | exact Hf].
